@@ -219,6 +219,61 @@ def guarded_by(ctx, f: Func, node: ast.AST, pred: Callable[[ast.AST], Optional[b
     return False
 
 
+def reaching_defs(ctx, f: Func, name: str, at: ast.AST) -> List[Tuple[ast.AST, Optional[ast.AST]]]:
+    """Definitions (stmt, value) of local `name` that reach the statement containing `at`.
+
+    A definition reaches a use if there is a CFG path from it to the use that passes no
+    other definition of the same name.  Parameters count as a definition at ENTRY
+    (returned as (fn, None))."""
+    cfg = ctx.cfg(f)
+    fv = FuncView.of(f.node)
+    ust = fv.stmt_of(at)
+    if ust is None or not cfg.has(ust):
+        return []
+    use = cfg.node(ust)
+    defs = assignments_to(f.node, name)
+    nodes = []
+    for st, v in defs:
+        s = st if isinstance(st, ast.stmt) else fv.stmt_of(st)
+        if s is not None and cfg.has(s):
+            n = cfg.node(s)
+            # a for-loop binds its target on the iterate edge
+            if isinstance(s, (ast.For, ast.AsyncFor)):
+                n = cfg.edge_node(s, "iter")
+            nodes.append((n, st, v))
+    all_nodes = [n for n, _s, _v in nodes]
+    out = []
+    for n, st, v in nodes:
+        others = [x for x in all_nodes if x != n]
+        if n == use:
+            # the defining statement itself uses the name on its right-hand side: reached by others only
+            continue
+        if cfg.reaches(n, use, avoiding=others):
+            out.append((st, v))
+    if name in params(f.node):
+        if cfg.reaches(ENTRY, use, avoiding=all_nodes):
+            out.append((f.node, None))
+    return out
+
+
+def reaching_origins(ctx, f: Func, e: ast.AST, at: Optional[ast.AST] = None, depth: int = 0) -> List[ast.AST]:
+    """Defining expressions that may flow into expression `e` evaluated at `at` (flow-sensitive)."""
+    e = strip_cast(e)
+    at = at if at is not None else e
+    if depth > 6 or not isinstance(e, ast.Name):
+        return [e]
+    rd = reaching_defs(ctx, f, e.id, at)
+    if not rd:
+        return [e]
+    out: List[ast.AST] = []
+    for st, v in rd:
+        if v is None:
+            out.append(e if st is f.node else st)
+        else:
+            out.extend(reaching_origins(ctx, f, v, st, depth + 1))
+    return out
+
+
 def returns_of(f: Func) -> List[ast.Return]:
     return [s for s in statements(f.node) if isinstance(s, ast.Return)]
 
